@@ -751,11 +751,16 @@ class Agg:
                 if not (rep and isinstance(rep, list) and rep):
                     tried.append({"same-name statuses": [s1, s2], "ok": None, "note": "no report", "exit": rc})
                     continue
-                ok = rep[0].get("status") == exp_file and rc == (19 if exp_file == "FAIL" else 0)
+                r0 = rep[0]
+                ncomp = [x for x in r0.get("not_compliant", []) if "Rule" in x]
+                # C09: the file status is FAIL iff not_compliant is non-empty, PASS iff it is empty and compliant is non-empty, else SKIP
+                sets_say = "FAIL" if ncomp else ("PASS" if r0.get("compliant") else "SKIP")
+                ok = r0.get("status") == exp_file and rc == (19 if exp_file == "FAIL" else 0) and sets_say == r0.get("status")
                 tried.append({"same-name statuses": [s1, s2], "ok": ok})
                 if not ok:
-                    return {"reproduced": True, "rules_file": rules, "data": '{"a":\n 1}\n', "expected": {"file": exp_file},
-                            "observed": rep[0].get("status"), "exit": rc}
+                    return {"reproduced": True, "rules_file": rules, "data": '{"a":\n 1}\n', "expected": {"file": exp_file, "status_implied_by_the_sets": "= file status"},
+                            "observed": rep[0].get("status"), "status_implied_by_the_sets": sets_say, "compliant": r0.get("compliant"),
+                            "not_applicable": r0.get("not_applicable"), "exit": rc}
         return {"reproduced": False, "tried": tried}
 
     def replay_when_block(self, cand):
